@@ -1,5 +1,4 @@
 import ParryModel.C14.Theorems2
-import ParryModel.C14.Theorems
 import ParryModel.C14.Model3
 /-!
 # C14 property theorems, part 4 (round fu5): 2-D `contact_manifold_cuboid_cuboid`
